@@ -27,7 +27,7 @@ RULES = ["C17.Stable", "C17.Reason", "C17.CloseOnce", "C17.NoHang", "C17.Release
 LIVENESS_RULES = {"C17.NoHang", "C17.Released", "C17.Terminal"}
 CHUNK = 12
 ALL_DEVS = ["OverwriteClosed", "LoopsDoneSilent", "HsRunnerDoneWaits", "StrongRefInConnLoop", "WaitConnectedBlind",
-            "SigOverwriteClosed", "SendCheckThenPark"]
+            "SigOverwriteClosed", "SendCheckThenPark", "ExitDoesNotWake"]
 
 
 def tla_set(xs):
@@ -231,6 +231,8 @@ def plan(tier):
                                     ev2=["Close"])),
                      ("sender", dict(max_events=2, wfc=0, phases=["channelsOpen"], ev1=["BlockedSender"],
                                      ev2=["Close"])),
+                     ("blocked", dict(max_events=1, wfc=0, phases=["senderBlocked"],
+                                      ev1=["Close", "IceStop", "PeerCloseNotify", "PeerSctpAbort", "SocketLoss"])),
                      ("rtp", dict(max_events=1, wfc=0, mode="Rtp", dc=False, phases=["offerMade", "channelsOpen"],
                                   ev1=["Close", "Drop", "IceStop"])),
                      ("srtp", dict(max_events=1, wfc=0, mode="Srtp", dc=False, phases=["channelsOpen"],
@@ -252,6 +254,10 @@ def plan(tier):
                  ("media", dict(max_events=1, wfc=0, traffic=True, phases=["mediaFlowing"])),
                  ("pairs", dict(max_events=2, wfc=0, ev2=["Close", "Drop"])),
                  ("mediapairs", dict(max_events=2, wfc=0, traffic=True, phases=["mediaFlowing"], ev2=["Close"])),
+                 ("sender", dict(max_events=2, wfc=0, phases=["channelsOpen"], ev1=["BlockedSender"], ev2=["Close"])),
+                 ("blocked", dict(max_events=2, wfc=0, phases=["senderBlocked"],
+                                  ev1=["Close", "IceStop", "PeerCloseNotify", "PeerSctpAbort", "PeerSctpShutdown",
+                                       "SocketLoss"], ev2=["Close"])),
                  ("rtp", dict(max_events=1, wfc=0, mode="Rtp", dc=False, ev1=["Close", "Drop", "IceStop"])),
                  ("srtp", dict(max_events=1, wfc=0, mode="Srtp", dc=False, ev1=["Close", "Drop", "IceStop"]))],
         "attempts": 2, "shards": 14, "repeat": 1,
@@ -487,12 +493,12 @@ def selftest():
     expect = {"OverwriteClosed": "TerminalIsStable", "LoopsDoneSilent": "ReportsTerminal",
               "HsRunnerDoneWaits": "Released", "StrongRefInConnLoop": "LocalEndsClosed",
               "WaitConnectedBlind": "NoHang", "SigOverwriteClosed": "TerminalIsStable",
-              "SendCheckThenPark": "NoHang"}
+              "SendCheckThenPark": "NoHang", "ExitDoesNotWake": "NoHang"}
     ok = True
     for dev, prop in expect.items():
         cfg = os.path.join(vlib.SPEC, f"MC_Lifecycle_self_{dev}.gen.cfg")
         mc_cfg(cfg, devs=[dev], max_events=1, wfc=1,
-               phases=["offerMade", "dtlsHandshaking", "channelsOpen"])
+               phases=["offerMade", "dtlsHandshaking", "channelsOpen", "senderBlocked"])
         res = vlib.tlc("MC_Lifecycle", os.path.basename(cfg), workers=6, timeout=1200, tag=f"self_{dev}")
         os.remove(cfg)
         got = " ".join(res["errors"]) + " ".join(res["raw_tail"])
